@@ -536,10 +536,14 @@ def _tabled1(ctx):
         raise AnchorError("wttabled1: writes of `form`-rendered data")
     if len(A["atoms"]) > 1 or X[2] != 2:
         g.unknown({"tested quantities": [show(a) for a in A["atoms"]]})
+    reach = set()
     for e in data_events:
         vals, fine = _arm_value(X, e.facts, (16, 32))
+        reach |= vals
         if not fine:
             g.bad({"lengths of form.format(<pair>) not excluded before data is written": sorted(vals)[:8]}, e.node)
+    if g.v is True and not {16, 32} <= reach:
+        g.bad({"no data is written for a form that renders a pair in": sorted({16, 32} - reach)})
     g.report(ctx, "wttabled1: a user `form` must render a pair in 16 or 32 characters", fn)
     N = lin(("len", ("sym", "t")))
     endt_all = V()
@@ -744,10 +748,14 @@ def _grids(ctx, once):
 
     def chk(ok, inst, where, detail=None, key=None):
         return once.check(ok, inst, where, detail, key=key)
+    reach = set()
     for e in vec:
         vals, fine = _arm_value(X, e.facts, (8, 16))
+        reach |= vals
         if not fine:
             g.bad({"lengths of form.format(x) not excluded before data is written": sorted(vals)[:8]}, e.node)
+    if g.v is True and not {8, 16} <= reach:
+        g.bad({"no data is written for a form that renders in": sorted({8, 16} - reach)})
     # case split on the rendered width of a coordinate: the function is evaluated again with len(form.format(x)) = 8 and = 16
     for Wf in (16, 8):
         Ep = engine(ctx, BULK, "wtgrids", pins={X: Wf})
@@ -1108,11 +1116,12 @@ def r3_reader_strides(ctx):
             g.unknown({"padding": pads})
             continue
         if ncols != Lin(c=8):
-            (g.bad if ncols.is_const() else g.unknown)({"columns after padding": show(ncols)})
+            r_, w_ = _differs(ncols - 8, e.facts, limit=12)
+            (g.bad if r_ is True else g.unknown)({"columns after padding": show(ncols), "not 8 for": w_})
             continue
         nc = lin(("dim", M.origin(first), 1))
         lo, hi = M.bounds(nc, e.facts)
-        if not (hi is not None and hi <= 7):
+        if not (hi is not None and hi <= 8):
             g.unknown({"padding is applied when the card has": f"{lo}..{hi} columns"})
             continue
         padded += 1
@@ -1137,7 +1146,8 @@ def _dmig(ctx):
                 return True
         return False
     swapped = lambda e, p_: p_.d["index"][1] == e.d["index"][1][::-1] and p_.loops == e.loops and p_.d["base"] == e.d["base"]
-    mir = [e for e in stores if form6(e.facts) and any(swapped(e, p_) and p_.seq < e.seq for p_ in stores)]
+    same = lambda e, p_: p_.d["value"] == e.d["value"] or e.d["value"] == ("elem", p_.d["base"], p_.d["index"])
+    mir = [e for e in stores if any(swapped(e, p_) and p_.seq < e.seq and set(p_.facts) <= set(e.facts) for p_ in stores)]
     prim = [e for e in stores if e not in mir]
     v = V()
     if not prim or not mir:
@@ -1146,14 +1156,37 @@ def _dmig(ctx):
     for e in mir:
         v.at(e.node)
         ps = [p_ for p_ in prim if swapped(e, p_) and p_.seq < e.seq and set(p_.facts) <= set(e.facts)]
-        if ps and not any(p_.d["value"] == e.d["value"] or e.d["value"] == ("elem", p_.d["base"], p_.d["index"]) for p_ in ps):
+        if ps and not any(same(e, p_) for p_ in ps):
             v.bad({"entry": show(ps[-1].d["value"]), "mirrored as": show(e.d["value"])}, e.node)
+        if not form6(e.facts):
+            extra = [(show(t), pol) for t, pol in e.facts if (t, pol) not in (ps[-1].facts if ps else ())]
+            v.bad({"the entry is mirrored under": extra[:3], "expected": "form == 6 (symmetric half storage) and only then"}, e.node)
     for p_ in prim:
         if forms and any(_excludes(p_.facts, x, 6) for x in forms):
             continue
         if not any(swapped(e, p_) for e in mir):
             v.unknown({"entry without a mirror store": show(p_.d["index"])}, p_.node)
     v.report(ctx, "rddmig: a form-6 entry (i, j) is mirrored to (j, i) unchanged (plain symmetry)", rd)
+    # orientation: the first index of an entry is looked up in what becomes the row index of the DataFrame, the second in its column index
+    o = V()
+    frames = [e for e in Er.events("call") if (e.d["name"] or "").split(".")[-1] == "DataFrame" and "index" in e.d["kws"] and "columns" in e.d["kws"] and e.d["args"]]
+    if not frames:
+        o.unknown("DataFrame(mat, index=..., columns=...)")
+    for fr in frames:
+        R, C = fr.d["kws"]["index"], fr.d["kws"]["columns"]
+        for p_ in prim:
+            if p_.d["base"] != fr.d["args"][0] or not set(p_.facts) <= set(fr.facts) and p_.loops[:1] != fr.loops[:1]:
+                continue
+            i0, i1 = p_.d["index"][1]
+            o.at(p_.node)
+            rr, rc, cr, cc = M.mentions(i0, R), M.mentions(i0, C), M.mentions(i1, R), M.mentions(i1, C)
+            if rr and cc and not rc and not cr:
+                continue
+            if rc and cr and not rr and not cc:
+                o.bad({"stored at": show(p_.d["index"])[:200], "row index of the frame": show(R)[:120], "column index": show(C)[:120]}, p_.node)
+            else:
+                o.unknown({"stored at": show(p_.d["index"])[:200]}, p_.node)
+    o.report(ctx, "rddmig: an entry is stored at (position in the row index, position in the column index) of the frame that is returned", rd)
     # the locals that hold the matrix form (6 and at least one of 1, 2, 9) and the matrix type (1..4), whatever they are called
     consts = {}
     for e in E.events("assign"):
@@ -1238,14 +1271,15 @@ def _dmig(ctx):
         if len(vals) == 1 and not inline_specs:
             val = vals[0][2]
             rep = isinstance(val, tuple) and val[:2] == ("op", ".replace") and len(val[2]) == 3
-            if rep and not (val[2][1] == S((("lit", "E"),)) and val[2][2] == S((("lit", "D"),))):
+            if rep and not (isinstance(val[2][1], S) and isinstance(val[2][2], S) and val[2][1].text() is not None and val[2][2].text() is not None):
                 v.unknown(show(val))
                 continue
+            rep = (val[2][1].text(), val[2][2].text()) if rep else None
             inner = val[2][0] if rep else val
             specs = []
             _float_specs(inner if isinstance(inner, S) else None, specs, None)
         elif inline_specs and not vals:
-            rep = False
+            rep = None
             specs = inline_specs
         else:
             v.unknown(repr(e.d["args"][0]))
@@ -1254,7 +1288,7 @@ def _dmig(ctx):
             v.unknown(repr(e.d["args"][0]))
             continue
         kinds.add(k)
-        letters = {("D" if rep and sp.type == "E" else sp.type) for sp, *_ in specs}
+        letters = {(rep[1] if rep and sp.type == rep[0] else sp.type) for sp, *_ in specs}
         want_letter = "D" if k % 2 == 0 else "E"
         if letters != {want_letter} and not (letters == {"e"} and want_letter == "E"):
             v.bad({"mtype": k, "exponent letter written": sorted(letters), "expected": want_letter})
@@ -1678,7 +1712,7 @@ def _has_thru(v):
 RULES = [
     ("C13-R1", r1_templates, 26),
     ("C13-R2", r2_nonempty_vector, 4),
-    ("C13-R3", r3_reader_strides, 8),
+    ("C13-R3", r3_reader_strides, 9),
     ("C13-R4", r4_sequence_coverage, 5),
 ]
 LEVEL = "other"
